@@ -1,6 +1,7 @@
-"""formops drift (C14, C04): the table translated from the CURRENT /repo/process/form.go by `probe formops`
+"""formops / nameops drift (C14, C04): the table translated from the CURRENT /repo/process/form.go by `probe formops`
 (coq/theories/gen/FormOps.v: per form type the body of Substitute and of FreeNames, the four list helpers, the
-constructors, FormHasContinuation, CopyForm) against the committed reference copy lib/ref_formops.v.
+constructors, FormHasContinuation, CopyForm; gen/NameOps.v: Name.Initialized / Equal / Substitute of name.go) against the
+committed reference copies lib/ref_formops.v, lib/ref_nameops.v.
 The theorems C14_formops_* (proofs/FormOpsAgree.v) say that the current table means the model of Subst.v; when the
 table differs from the reference AND those theorems no longer check (or the translator refuses the source), this
 module names the methods whose translation changed and SEARCHES for a concrete program: focused programs per form
@@ -17,7 +18,10 @@ from . import common as C
 
 REF = os.path.join(C.VERIF, "lib", "ref_formops.v")
 CUR = os.path.join(C.GEN, "FormOps.v")
+REF_N = os.path.join(C.VERIF, "lib", "ref_nameops.v")
+CUR_N = os.path.join(C.GEN, "NameOps.v")
 AGREE_V = "theories/proofs/FormOpsAgree.v"
+AGREE_N = "theories/proofs/NameOpsAgree.v"
 
 THEOREMS = {
     "structs": ["C14_formops_structs"],
@@ -27,10 +31,13 @@ THEOREMS = {
     "helpers": ["C14_formops_append_agrees", "C14_formops_remove_agrees", "C14_formops_exists_agrees", "C14_formops_merge_agrees"],
     "has_cont": ["C14_formops_has_continuation_agrees"],
     "copy_cases": ["C14_formops_copy_agrees", "C14_formops_copy_wf", "C14_formops_copy_identity"],
+    "name_ops": ["C14_nameops_initialized_agrees", "C14_nameops_equal_agrees", "C14_nameops_subst_agrees", "C14_nameops_subst_wf"],
+    "name_fields": ["C14_nameops_fields"],
 }
 GO_NAME = {
     "subst_methods": "(*%s).Substitute", "free_methods": "(*%s).FreeNames", "helpers": "func %s", "copy_cases": "CopyForm, case *%s",
     "ctors": "constructor %s", "structs": "type %s struct", "has_cont": "FormHasContinuation%s",
+    "name_ops": "(*Name).%s", "name_fields": "type Name struct%s",
 }
 
 # focused programs: (form types they exercise, text).  Closed, terminating, printing.
@@ -148,6 +155,15 @@ def _entries(txt):
                 continue
         if sec is None or sec == "table":
             continue
+        if sec == "name_fields":
+            if line.strip():
+                out[sec][""] = line.strip()
+            continue
+        if sec == "name_ops":
+            if not m and line.strip() and len(out[sec]) < 3:
+                k = ["Initialized", "Equal", "Substitute"][min(len(out[sec]), 2)]
+                out[sec][k] = line.strip().rstrip(".")
+            continue
         if sec == "has_cont":
             if line.strip().startswith("("):
                 out[sec][""] = line.strip().rstrip(".")
@@ -175,16 +191,17 @@ def changed_entries(cur_txt, ref_txt):
 def drift(b=None):
     """None when the current translation is the reference one and the translator ran"""
     info = {"translator_error": None, "changed": []}
-    if b is not None and "FormOps.v" in b.gen_errors:
-        e = b.gen_errors["FormOps.v"]
+    bad = [g for g in ("FormOps.v", "NameOps.v") if b is not None and g in b.gen_errors]
+    if bad:
+        e = b.gen_errors[bad[0]]
         info["translator_error"] = e.strip()[-1200:]
         m = re.search(r"cannot translate (.*?): (.*)", e)
         if m:
             info["refused"] = {"go": m.group(1), "why": m.group(2)}
         return info
     try:
-        cur = open(CUR).read()
-        ref = open(REF).read()
+        cur = open(CUR).read() + "\n" + open(CUR_N).read()
+        ref = open(REF).read() + "\n" + open(REF_N).read()
     except OSError as ex:
         info["translator_error"] = repr(ex)
         return info
@@ -202,7 +219,9 @@ def _types_of(info):
         if not m:
             ts.add("*")
     for c in info.get("changed", []):
-        if c["section"] in ("subst_methods", "free_methods", "copy_cases", "structs"):
+        if c["section"] in ("name_ops", "name_fields"):
+            ts.add("*")
+        elif c["section"] in ("subst_methods", "free_methods", "copy_cases", "structs"):
             ts.add(c["key"])
         elif c["section"] == "ctors":
             ts.add("*")
@@ -277,8 +296,8 @@ def diagnose(b, ps, prop):
     info = drift(b)
     if info is None:
         return [], {"drift": False}
-    broken = [f for f in ps.broken if f in (AGREE_V, "theories/gen/FormOps.v", "theories/FormIR.v")] or \
-             [f for f, e in ps.broken.items() if "FormOpsAgree" in e or "FormOps" in e]
+    broken = [f for f in ps.broken if f in (AGREE_V, AGREE_N, "theories/gen/FormOps.v", "theories/gen/NameOps.v", "theories/FormIR.v", "theories/NameIR.v")] or \
+             [f for f, e in ps.broken.items() if "FormOps" in e or "NameOps" in e]
     cov = {"drift": True, "changed": [c["go"] for c in info.get("changed", [])], "refused": info.get("refused"),
            "agreement_theorems_broken": bool(broken)}
     if not broken and not info.get("translator_error"):
